@@ -637,3 +637,23 @@ def q12_working_label_carried(ctx) -> None:
         leaves = [n for n in walk_local(f) if isinstance(n, (ast.Return, ast.Raise)) and n.lineno < cst.lineno]
         ctx.violation("Q12", leaves[0] if leaves else cst, "a label popped from the working queue can leave _iter_helper_working without being put into next_level: it is then never "
                       "expanded by the expansion sets")
+
+
+def q13_staging_is_a_queue(ctx) -> None:
+    """Packets are staged at the right end and handed out from the left: a batch comes out in
+    the order it was made (inferral before initial work, the strategies of a set in order)."""
+    P = ctx.P
+    cls = P.need_class(Q)
+    n = 0
+    for m in cls.methods.values():
+        for c in walk_local(m.node):
+            if isinstance(c, ast.Call) and isinstance(c.func, ast.Attribute) and is_self_attr(c.func.value, "staging"):
+                if c.func.attr in ("extend", "append"):
+                    n += 1
+                elif c.func.attr in ("extendleft", "appendleft", "insert", "rotate", "reverse"):
+                    ctx.violation("Q13", c, f"{m.qualname}: `{norm(c)[:60]}` puts packets at the end they are taken from (and extendleft reverses the batch): a label's packets "
+                                  "come out in reverse order -- initial work before inferral work")
+    if n < 2:
+        ctx.floor("Q13", 99)
+    else:
+        ctx.ok("Q13", f"packets are staged at the right end only ({n} sites) and taken from the left")
